@@ -98,6 +98,9 @@ def snap(obj, memo=None, ids=False):
     return ('repr', type(obj).__qualname__, repr(obj))
 
 
+RESULT_AFFECTING = ('np.geterr', 'np.errcall', 'np.printoptions', 'locale', 'recursionlimit')
+
+
 def global_state():
     '''process-wide settings a read-only operation has no business changing'''
     import locale
@@ -592,7 +595,17 @@ def run_impl(ctx, case, steps):
         if glob1 != glob0:
             changed = {k: (glob0.get(k), glob1.get(k)) for k in glob1
                        if k in glob0 and glob0.get(k) != glob1.get(k)}      # (a first import adds keys)
-        if glob1 != glob0 and changed:
+            # only what can change the result of a later evaluation or rendering is a violation; the rest
+            # (warnings filters, environment size, cwd, matplotlib rcParams / backend) is a note in the evidence
+            for k in [k for k in changed if k not in RESULT_AFFECTING]:
+                ctx.count('note_global_state_changed_' + k)
+                note = f'NOTE (not a violation): an operation {op[0]} changes {k}'
+                if note not in ctx.notes:
+                    ctx.notes.append(note)
+            changed = {k: v for k, v in changed.items() if k in RESULT_AFFECTING}
+        else:
+            changed = {}
+        if changed:
             ctx.oracle_failure(f'operation {n} {op} on a {kind} result changes process-wide state: {changed} '
                                f':: {case}', case, key='global-state-changed-by-' + op[0])
             restore_global_state(glob0)
